@@ -698,6 +698,65 @@ def rule_K3b(ctx, rule: str = "K3b") -> None:
         ctx.proved(rule, name, mod.loc(fn), f"{len(K3B_MICROS)} microsecond values x naive/aware over {len(paths)} paths")
 
 
+def rule_K3c(ctx, rule: str = "K3c") -> None:
+    """the Timestamp text denotes the instant the datetime denotes, whatever its UTC offset: timestamp_to_json evaluated (terms of
+    E2, the analyser's evaluator, no repository code run) at aware datetimes with the offsets +02:00, -05:30, +00:00 and at one
+    with a fraction; the text must be the RFC 3339 form of the same instant in UTC ('Z')"""
+    import datetime as _dt
+    from .. import concrete
+    mod = ctx.repo.mod(M_INIT)
+    fn = mod.func("_Timestamp.timestamp_to_json")
+    ctx.analysed("_Timestamp.timestamp_to_json")
+    params = [a.arg for a in fn.args.args if a.arg not in ("self", "cls")]
+    name = "timestamp_to_json:instant-at-distinguished-offsets"
+    if len(params) != 1:
+        ctx.inconclusive(rule, name, f"parameters {params}", mod.loc(fn))
+        return
+    paths = Interp(mod, fork_ifexp=True).run(fn)
+    ctx.count(len(paths))
+    inputs = [_dt.datetime(2020, 1, 1, 0, 0, 0, tzinfo=_dt.timezone(_dt.timedelta(hours=2))),
+              _dt.datetime(1999, 12, 31, 22, 15, 7, 250000, tzinfo=_dt.timezone(_dt.timedelta(hours=-5, minutes=-30))),
+              _dt.datetime(2020, 6, 1, 12, 0, 0, tzinfo=_dt.timezone.utc),
+              _dt.datetime(1970, 1, 1, 1, 0, 0, 1, tzinfo=_dt.timezone(_dt.timedelta(hours=1)))]
+    bad = unknown = None
+    for d in inputs:
+        env = {N(params[0]): d, params[0]: d}
+        sel, why = [], None
+        for p in paths:
+            try:
+                if all(bool(concrete.ev(k, env)) == bool(v) for k, v in p.valuation.items() if k[0] != "raises"):
+                    sel.append(p)
+            except concrete.Unknown as e:
+                why = str(e)
+                break
+        if why is not None or len(sel) != 1:
+            unknown = unknown or f"{d.isoformat()}: {why or str(len(sel)) + ' paths selected'}"
+            continue
+        p = sel[0]
+        u = d.astimezone(_dt.timezone.utc)
+        us = u.microsecond
+        want = u.replace(tzinfo=None, microsecond=0).isoformat() + ("" if us == 0 else f".{us // 1000:03d}" if us % 1000 == 0 else f".{us:06d}") + "Z"
+        if p.outcome != "return" or p.value is None:
+            bad = bad or (d, f"<{p.outcome}>", want)
+            continue
+        try:
+            got = concrete.ev(p.value, env)
+        except concrete.Unknown as e:
+            unknown = unknown or f"{d.isoformat()}: text not evaluable ({e})"
+            continue
+        if got != want:
+            bad = bad or (d, got, want)
+    if bad:
+        d, got, want = bad
+        ctx.refuted(rule, name, f"{d.isoformat()}->{got}", mod.loc(fn), f"for the datetime {d.isoformat()} the text is {got!r}; the same instant in RFC 3339 / proto3 JSON is {want!r}: "
+                    "the text (valid as it is) denotes another instant than the one bytes(m) carries - the wall-clock time was relabelled as UTC instead of converted",
+                    f"M(ts=datetime.fromisoformat({d.isoformat()!r})).to_json() read by google.protobuf.json_format")
+    elif unknown:
+        ctx.inconclusive(rule, name, unknown[:300], mod.loc(fn))
+    else:
+        ctx.proved(rule, name, mod.loc(fn), f"{len(inputs)} aware datetimes over {len(paths)} paths")
+
+
 # ---------------------------------------------------------------------------
 # J4-J6: decoder discipline of _from_dict_init; J5: JSON presence table of to_dict
 
